@@ -71,6 +71,18 @@ theorem volume_geometry_twin (coord : Coord) (v : Vol) (op : SOp) (w : VStep) (h
     (h : op.applyVol coord v = .ok w) : ∃ f, op.applyGeom coord v.geom = .ok (w.1.geom, f) :=
   (applyVol_sound hp h).2.2.1
 
+/-- **Refused alike**: a volume refuses a cropping operation (indexing, flip, permute, swap, crop_to,
+re-orientation, handedness, copy) exactly when its geometry-only twin does, and likewise `pad` with CONSTANT or EDGE
+(statistic modes can additionally fail on an empty array; `VolumeGeometry.pad` ignores the mode altogether). -/
+theorem cropping_op_refused_alike (coord : Coord) (v : Vol) (op : SOp) (hp : v.geom.Pos) (hc : op.cropping = true) :
+    (∃ w, op.applyVol coord v = .ok w) ↔ (∃ r, op.applyGeom coord v.geom = .ok r) :=
+  cropping_accepted_alike hp hc
+
+theorem pad_refused_alike (coord : Coord) (v : Vol) (wd : PadWidth) (o : PadOpts) (hp : v.geom.Pos)
+    (hm : o.mode = "CONSTANT" ∨ o.mode = "EDGE") :
+    (∃ w, (SOp.pad wd o).applyVol coord v = .ok w) ↔ (∃ r, (SOp.pad wd o).applyGeom coord v.geom = .ok r) :=
+  pad_accepted_alike hp hm
+
 /-- Without padding no voxel of the result is new (its provenance is defined). -/
 theorem volume_cropping_op_all_retained (coord : Coord) (v : Vol) (op : SOp) (w : VStep) (hp : v.geom.Pos)
     (hc : op.cropping = true) (h : op.applyVol coord v = .ok w) (j : I3) (hj : w.1.geom.inRange j = true) :
@@ -340,6 +352,11 @@ theorem get_channel_second_of_two (v : Vol) (w : VStep) (a b k : Nat) (e0 e1 : N
     (keep = true → (∀ j, w.1.arr j [y, 0] = v.arr j [y, k]) ∧ w.1.cshape = [a, 1] ∧
       ∃ x, e1.2[k]? = some x ∧ w.1.chans = [e0, (e1.1, [x])]) :=
   getChannel2_second keep hs hc h y
+
+theorem get_channel_both_of_two (v : Vol) (w : VStep) (a b k l : Nat) (e0 e1 : Nat × List Nat)
+    (hs : v.cshape = [a, b]) (hc : v.chans = [e0, e1]) (h : getChannelV v [(0, k), (1, l)] false = .ok w) :
+    k < a ∧ l < b ∧ w.1.geom = v.geom ∧ (∀ j, w.1.arr j [] = v.arr j [k, l]) ∧ w.1.chans = [] ∧ w.1.cshape = [] :=
+  getChannel2_both hs hc h
 
 theorem get_channel_single (v : Vol) (w : VStep) (a k : Nat) (e0 : Nat × List Nat) (keep : Bool)
     (hs : v.cshape = [a]) (hc : v.chans = [e0]) (h : getChannelV v [(0, k)] keep = .ok w) :
